@@ -4,6 +4,7 @@ import hashlib
 import json
 import os
 import re
+import shutil
 import subprocess
 import sys
 import time
@@ -15,7 +16,7 @@ CACHE = os.path.join(ROOT, ".cache")
 WORK = os.path.join(ROOT, "work")
 TARGET = os.path.join(CACHE, "target")
 DRIVER_DIR = os.path.join(ROOT, "harness", "driver")
-DRIVER = os.path.join(TARGET, "release", "driver")
+DRIVER = os.path.join(CACHE, "driver-active")      # copy of the binary built by the last build_driver()
 REPLAYS = os.path.join(ROOT, "replays")
 EVIDENCE = os.path.join(ROOT, "evidence")
 REPO = "/repo"
@@ -205,10 +206,26 @@ def repo_src_hash():
     return h.hexdigest()[:16]
 
 
+HOOKS = {"on": True, "note": ""}
+
+
 def build_driver():
+    """Build the driver against /repo's working tree with the hooks on. If the tree only fails to build WITH the guard
+    (a change broke a guarded hook call), fall back to a build without the guard: every check that does not need the
+    counters still runs; C20 then reports the missing counters as a broken correspondence."""
     env = {"CARGO_NET_OFFLINE": "true", "RUSTFLAGS": GUARD, "CARGO_TARGET_DIR": TARGET}
     rc, out = sh("cargo build --release --offline", cwd=DRIVER_DIR, env=env, timeout=3000)
-    return rc == 0, out
+    if rc == 0:
+        HOOKS.update(on=True, note="")
+        shutil.copy2(os.path.join(TARGET, "release", "driver"), DRIVER)
+        return True, out
+    env2 = {"CARGO_NET_OFFLINE": "true", "CARGO_TARGET_DIR": TARGET + "-nohooks"}
+    rc2, out2 = sh("cargo build --release --offline", cwd=DRIVER_DIR, env=env2, timeout=3000)
+    if rc2 == 0:
+        HOOKS.update(on=False, note="build with %s failed, hooks off: %s" % (GUARD, out[-600:]))
+        shutil.copy2(os.path.join(TARGET + "-nohooks", "release", "driver"), DRIVER)
+        return True, out2
+    return False, out
 
 
 def run_driver(cases, workdir, tag="cases", sub="gen", timeout=3000):
